@@ -48,12 +48,14 @@ const (
 	opConfInitGood
 	opConfInitBad
 	opSetPeer
+	opRespondOffCurve
+	opConfRespOffCurve
 )
 
 var opNames = []string{"Init", "Respond", "ConfirmResponder(nil)", "ConfirmResponder(correct S_B)", "ConfirmResponder(wrong S_B)",
-	"ConfirmInitiator(nil)", "ConfirmInitiator(correct S_A)", "ConfirmInitiator(wrong S_A)", "SetPeerParameters"}
+	"ConfirmInitiator(nil)", "ConfirmInitiator(correct S_A)", "ConfirmInitiator(wrong S_A)", "SetPeerParameters", "Respond(off-curve R)", "ConfirmResponder(off-curve R)"}
 
-var opFamily = []string{"Init", "Respond", "ConfirmResponder", "ConfirmResponder", "ConfirmResponder", "ConfirmInitiator", "ConfirmInitiator", "ConfirmInitiator", "SetPeerParameters"}
+var opFamily = []string{"Init", "Respond", "ConfirmResponder", "ConfirmResponder", "ConfirmResponder", "ConfirmInitiator", "ConfirmInitiator", "ConfirmInitiator", "SetPeerParameters", "Respond", "ConfirmResponder"}
 
 func machine(tp tuple, peerAtCtor, gen bool) engine.Machine[*hstate] {
 	const klen = 16
@@ -256,6 +258,26 @@ func machine(tp tuple, peerAtCtor, gen bool) engine.Machine[*hstate] {
 						}
 						t.Outcome("hist/confinit/ok")
 					}
+				case opRespondOffCurve, opConfRespOffCurve:
+					// a refused message in the middle of a history: whatever the object held before, the call returns an
+					// error; what a later step makes of the session is left open by the model (no panic is required)
+					offCurve := ecref.Point{X: RPeer.X, Y: new(big.Int).Add(RPeer.Y, big.NewInt(1))}
+					var err error
+					if op == opRespondOffCurve {
+						_, _, err = s.ke.RepondKeyExchange(engine.NewScriptReader(b32(r2)), toPub(offCurve))
+					} else {
+						_, _, err = s.ke.ConfirmResponder(toPub(offCurve), filler)
+					}
+					if err == nil {
+						fail(kp+on+"/accepts-off-curve-point", "%s returned no error", opNames[op])
+					}
+					if op == opRespondOffCurve {
+						s.rSt = stOpen
+					}
+					if s.vSt != stNone || s.peerSet && (op == opRespondOffCurve || s.rSt != stNone) {
+						s.vSt = stOpen
+					}
+					t.Outcome("hist/refused-point")
 				case opSetPeer:
 					err := s.ke.SetPeerParameters(&privPeer.PublicKey, nil)
 					if s.peerSet {
